@@ -34,6 +34,7 @@ import (
 	"github.com/daeuniverse/dae/config"
 	"github.com/daeuniverse/dae/pkg/config_parser"
 	"github.com/daeuniverse/dae/verifx/vlib"
+	"github.com/daeuniverse/dae/verifx/vsched"
 	dnsmessage "github.com/miekg/dns"
 	"github.com/sirupsen/logrus"
 )
@@ -677,6 +678,10 @@ func main() {
 		runReplay(r, r.ReplayArg)
 		return
 	}
+	if os.Getenv("C07_ONLY_CONCURRENCY") != "" { // debugging aid: run only the concurrency leg
+		concurrencyLeg(r)
+		r.Finish()
+	}
 	thorough := r.Thorough()
 	r.Rule("Leg 1: every program (rule list of length 0..K over a closed rule pool = condition pool x outbound pool, x fallback pool) x every input of a closed input list; programs and inputs are enumerated without repetition, so every (program,input) case is distinct; a case is non-trivial when a rule (not the fallback) decides it. Leg 2: every (response program, request route, answer table) x question through the real DnsController; non-trivial when the reference chain re-asks or ends in a reject. distinct_nontrivial = the sum of both counts.")
 
@@ -825,5 +830,35 @@ func main() {
 	r.Assume("upstream(<reserved word>) conditions (upstream(accept), upstream(reject), upstream(asis)) are outside the grammar: the statement does not define them")
 	r.Assume("2-rule programs: quick uses request fallbacks {asis, ua} and response fallbacks {accept, ua}; thorough uses all request fallbacks and response fallbacks {reject, ua}; programs with <=1 rule use every fallback; thorough has 3 upstreams, quick 2")
 	r.Assume("Leg 1c: a daedns.Router is only built when at least one request rule exists (daedns.New returns nil otherwise), so rule-less programs are not exercised there; asis and reject both mean 'hand over to the base resolver' for dae's own lookups")
+	concurrencyLeg(r)
 	r.Finish()
+}
+
+// concurrencyLeg: first use of an upstream by several handlers at once (engine S, in-process): every interleaving of
+// 2 (quick) / 3 (thorough) threads through RequestSelect -> lazy UpstreamResolver.GetUpstream -> ResponseSelect with up to 2 preemptions.
+func concurrencyLeg(r *vlib.Run) {
+	threads := 2
+	bounds := []vsched.Bound{{Preempt: 0}, {Preempt: 1}, {Preempt: 2}}
+	if r.Thorough() {
+		threads = 3
+	}
+	sc := dns.VerifUpstreamRaceScenario(threads, quietLogger())
+	e := &vsched.Explorer{Sc: sc, Bounds: bounds, Deadline: time.Now().Add(r.Budget(60*time.Second, 5*time.Minute))}
+	st := e.Explore()
+	r.Set("concurrency_leg_executions", st.Executions)
+	r.Set("concurrency_leg_decisions", st.Steps)
+	r.Set("concurrency_leg_distinct_outcomes", len(st.OutcomeHashes))
+	r.Set("concurrency_leg_bound_completed", st.BoundCompleted)
+	if !st.Exhaustive {
+		r.CapHit("concurrency leg: time budget")
+	}
+	for i := range st.Violations {
+		v := st.Violations[i]
+		if !e.Confirm(&v, 5) {
+			fmt.Fprintln(os.Stderr, "concurrency leg: schedule did not reproduce (harness nondeterminism):", v.Sig)
+			os.Exit(2)
+		}
+		r.Violation("concurrency "+sc.Name+": "+v.Sig, map[string]any{"schedule": v.Schedule, "bound": v.Bound, "detail": v.Detail, "trace": v.Trace})
+	}
+	r.Assume("concurrency leg: scheduling points at sync/atomic operations of component/dns/{upstream.go,dns.go}; 2-3 handler threads; sequential consistency")
 }
